@@ -426,6 +426,40 @@ def alloc_symmetry_cxx(ctx, crate, cx):
                "size expression %s (Rust: Layout::new::<VectorHeader>().extend(Layout::array::<T>(capacity)))" % asz)
         ctx.ob(R, "resolvo::Vector", "align==alignof(Header)", aal == "alignof(Header)", "cpp/include/resolvo_vector.h", "align expression %s" % aal)
         ctx.ob(R, "resolvo::Vector", "free-passes-inner", "inner" in fr[0][1][0], "cpp/include/resolvo_vector.h", "freed pointer: %s" % fr[0][1][0])
+    sets_size_to_cap = False
+    for m in cxx.walk(rec, lambda n: n.get("kind") in ("CXXConstructorDecl", "CXXMethodDecl", "FunctionTemplateDecl")):
+        for bo in cxx.walk(m, lambda n: n.get("kind") == "BinaryOperator" and n.get("opcode") == "="):
+            inner = [x for x in bo.get("inner", []) if isinstance(x, dict)]
+            if len(inner) == 2 and expr_str(inner[0]) == "size" and "capacity" in expr_str(inner[1]):
+                sets_size_to_cap = True
+    ctx.notes.append("a Vector constructor sets size = capacity: %s (this is why with_capacity must be exact)" % sets_size_to_cap)
+    # with_capacity is exact: the range constructor sets `size = capacity` after copying distance(first,last) elements, and
+    # detach() relies on capacity >= expected; so the parameter must reach the header and the allocation size unmodified
+    for m in cxx.walk(rec, lambda n: n.get("kind") == "CXXMethodDecl" and n.get("name") == "with_capacity"):
+        if not [x for x in m.get("inner", []) if x.get("kind") == "CompoundStmt"]:
+            continue
+        params = [x.get("name") for x in m.get("inner", []) if x.get("kind") == "ParmVarDecl"]
+        reassigned = []
+        for bo in cxx.walk(m, lambda n: n.get("kind") in ("BinaryOperator", "CompoundAssignOperator", "UnaryOperator")):
+            op = bo.get("opcode", "")
+            inner = [x for x in bo.get("inner", []) if isinstance(x, dict)]
+            if not inner:
+                continue
+            is_assign = (bo["kind"] != "UnaryOperator" and (op == "=" or op.endswith("=") and op not in ("==", "!=", "<=", ">="))) or \
+                (bo["kind"] == "UnaryOperator" and op in ("++", "--"))
+            if is_assign and expr_str(inner[0]) in params:
+                reassigned.append(expr_str(inner[0]))
+        inits = cxx.walk(m, lambda n: n.get("kind") in ("InitListExpr", "CXXNewExpr"))
+        hdr_cap = None
+        for il in cxx.walk(m, lambda n: n.get("kind") == "InitListExpr"):
+            items = [x for x in il.get("inner", []) if isinstance(x, dict)]
+            if len(items) == 3:
+                hdr_cap = (expr_str(items[1]), expr_str(items[2]))
+        # rounding the capacity up is harmless by itself; it is wrong as long as some constructor derives `size` from `capacity`
+        ok = hdr_cap is not None and hdr_cap[0] == "0" and hdr_cap[1] in params and not (reassigned and sets_size_to_cap)
+        ctx.ob(R, "resolvo::Vector::with_capacity", "capacity-is-exact", ok, "cpp/include/resolvo_vector.h",
+               "the requested capacity is stored and allocated unmodified, size starts at 0 (header init: %s; parameter reassigned: %s)" %
+               (hdr_cap, reassigned or "no"))
     # copy-on-write protocol of push_back: detach(size + 1) before the placement new at end()
     n_pb = 0
     for m in cxx.walk(rec, lambda n: n.get("kind") == "CXXMethodDecl" and n.get("name") == "push_back"):
@@ -454,10 +488,98 @@ def alloc_symmetry_cxx(ctx, crate, cx):
     ctx.ob(R, "resolvo::Vector", "static_assert(alignof(T)<=alignof(Header))", ok_sa, "cpp/include/resolvo_vector.h", "C++ side guards the element alignment")
     # refcount guard in drop(): `inner->refcount > 0 && --inner->refcount == 0`
     for m in cxx.walk(rec, lambda n: n.get("kind") == "CXXMethodDecl" and n.get("name") == "drop"):
-        ifs = cxx.walk(m, lambda n: n.get("kind") == "IfStmt")
-        txt = expr_str(ifs[0]["inner"][0]) if ifs else ""
-        ctx.ob(R, "resolvo::Vector::drop", "static-empty-vector-not-freed", "> 0" in txt and "&&" in txt, "cpp/include/resolvo_vector.h",
-               "guard: %s" % txt[:120])
+        facts = _facts_at_call(m, "resolvo_vector_free")
+        ok = facts is not None and any(_means_positive_refcount(pol, e) for pol, e in facts)
+        ctx.ob(R, "resolvo::Vector::drop", "static-empty-vector-not-freed", ok, "cpp/include/resolvo_vector.h",
+               "every path to resolvo_vector_free has established refcount > 0 (facts on the path: %s)" %
+               (", ".join(("" if pol else "!") + expr_str(e) for pol, e in (facts or []))[:160]))
+
+
+def _conj(pol, e, out):
+    """Split a condition known to be `pol` (True: holds, False: does not hold) into atomic facts."""
+    k = e.get("kind")
+    inner = [x for x in e.get("inner", []) if isinstance(x, dict)]
+    if k in ("ImplicitCastExpr", "ParenExpr", "ExprWithCleanups", "ConstantExpr") and inner:
+        return _conj(pol, inner[0], out)
+    if k == "UnaryOperator" and e.get("opcode") == "!" and inner:
+        return _conj(not pol, inner[0], out)
+    if k == "BinaryOperator" and e.get("opcode") == "&&" and pol:
+        _conj(True, inner[0], out)
+        _conj(True, inner[1], out)
+        return
+    if k == "BinaryOperator" and e.get("opcode") == "||" and not pol:
+        _conj(False, inner[0], out)
+        _conj(False, inner[1], out)
+        return
+    out.append((pol, e))
+
+
+def _contains_call(n, name):
+    for x in cxx.walk(n, lambda y: y.get("kind") in ("DeclRefExpr", "UnresolvedLookupExpr", "DependentScopeDeclRefExpr")):
+        if ((x.get("referencedDecl") or {}).get("name") or x.get("name")) == name:
+            return True
+    return False
+
+
+def _always_exits(stmt):
+    k = stmt.get("kind")
+    if k == "ReturnStmt":
+        return True
+    if k == "CompoundStmt":
+        inner = [x for x in stmt.get("inner", []) if isinstance(x, dict)]
+        return bool(inner) and _always_exits(inner[-1])
+    return False
+
+
+def _facts_at_call(fn, callee):
+    """Atomic conditions known to hold / not to hold on every path to the (first) statement containing a call of `callee`:
+    then-branches of enclosing `if`s contribute their condition, preceding `if (c) return;` statements contribute !c."""
+    body = [x for x in fn.get("inner", []) if isinstance(x, dict) and x.get("kind") == "CompoundStmt"]
+    if not body:
+        return None
+
+    def walk(stmt, facts):
+        k = stmt.get("kind")
+        if k == "CompoundStmt":
+            cur = list(facts)
+            for st in [x for x in stmt.get("inner", []) if isinstance(x, dict)]:
+                if _contains_call(st, callee):
+                    return walk(st, cur)
+                if st.get("kind") == "IfStmt":
+                    parts = [x for x in st.get("inner", []) if isinstance(x, dict)]
+                    if len(parts) == 2 and _always_exits(parts[1]):
+                        _conj(False, parts[0], cur)
+            return None
+        if k == "IfStmt":
+            parts = [x for x in stmt.get("inner", []) if isinstance(x, dict)]
+            if len(parts) >= 2 and _contains_call(parts[1], callee):
+                cur = list(facts)
+                _conj(True, parts[0], cur)
+                return walk(parts[1], cur)
+            if len(parts) == 3 and _contains_call(parts[2], callee):
+                cur = list(facts)
+                _conj(False, parts[0], cur)
+                return walk(parts[2], cur)
+            return None
+        return facts
+    return walk(body[0], [])
+
+
+def _means_positive_refcount(pol, e):
+    k = e.get("kind")
+    inner = [x for x in e.get("inner", []) if isinstance(x, dict)]
+    if k != "BinaryOperator" or len(inner) != 2:
+        return False
+    a, b, op = expr_str(inner[0]), expr_str(inner[1]), e.get("opcode")
+    if a != "refcount":
+        if b == "refcount":
+            a, b = b, a
+            op = {"<": ">", ">": "<", "<=": ">=", ">=": "<="}.get(op, op)
+        else:
+            return False
+    if pol:
+        return (op, b) in ((">", "0"), (">=", "1"))
+    return (op, b) in (("<=", "0"), ("<", "1"))
 
 
 def alloc_symmetry_rust(ctx, crate, crs):
@@ -591,6 +713,27 @@ def provider_mapping(ctx, crate, crs):
                             if tg is not None and q.edge_dominates(rs, c.bb, tg, i):
                                 res.setdefault(v, set()).add(s["r"]["o"].get("v"))
         ctx.ob(R, rs.key, "returns-true-iff-Ok", res.get("Ok") == {True} and res.get("Err") == {False}, rs.loc(), "return constants per arm: %s" % res)
+        # the out-parameters are overwritten (`*result = ..`, `*error = ..`), never appended to: a caller may reuse its vector / string
+        writes = {3: [], 4: []}
+        for i, j, s2 in rs.assigns():
+            p_ = s2["p"]
+            if p_["l"] in (3, 4) and [e for e in p_.get("p", [])] == ["*"]:
+                writes[p_["l"]].append((i, s2))
+        okr = bool(writes[4])
+        for i, s2 in writes[4]:
+            lv = q.leaves(rs, s2["r"]["o"]) if s2["r"]["k"] == "use" else set()
+            okr = okr and "call:solve" in lv and "arg:4" not in lv and not any(x.startswith("field:") and "result" in x for x in lv)
+        appended = []
+        for i, t in rs.calls():
+            f = t.get("f")
+            if f and t["args"] and f["name"] in ("push", "extend", "extend_from_slice", "append", "insert", "push_str", "push_back"):
+                d = rs.origin(t["args"][0])
+                if d["k"] == "arg" and d["l"] in (3, 4):
+                    appended.append(f["name"])
+        ctx.ob(R, rs.key, "result-is-overwritten-with-the-solution", okr and not appended, rs.loc(),
+               "*result is assigned a vector built from solve()'s answer alone; nothing is appended to the caller's out-parameters "
+               "(appending calls: %s)" % (appended or "none"))
+        ctx.ob(R, rs.key, "error-is-overwritten", bool(writes[3]), rs.loc(), "*error is assigned on the error paths")
 
 
 def _unmodified_fields(ctx, R, b, adt, fn):
